@@ -91,7 +91,7 @@ var c10Layouts = []c10Layout{
 	{" ", "", " ", "", " ", "\r\n\t ", " "},
 	{"", "", "", "", "", "\t", "\t"},
 	// more than 512 bytes of white space in front of the object
-	{"", "", "", "", "", strings.Repeat(" \n", 200), "\n"},
+	{"", "", "", "", "", strings.Repeat(" \n", 300), "\n"},
 }
 
 type c10Ser struct {
